@@ -71,11 +71,21 @@ def page(rng):
     return roman(rng)
 
 
+def exotic_reporters():
+    """database reporter strings containing a non-ASCII character (typographic apostrophes: "F. App’x")"""
+    if "exotic" not in _CACHE:
+        d = db()
+        _CACHE["exotic"] = sorted(x for x in d["reporters"] if any(ord(c) > 127 for c in x)) or ["F. App’x"]
+    return _CACHE["exotic"]
+
+
 def reporter(rng, pool=None):
     d = db()
     r = rng.random()
     if pool:
         return rng.choice(pool)
+    if r < 0.04:
+        return rng.choice(exotic_reporters())
     if r < 0.55:
         return rng.choice(COMMON_REPORTERS)
     if r < 0.9:
@@ -150,7 +160,8 @@ def full_case(rng, st):
     if rng.random() < 0.2:
         out += rng.choice([" (overruling prior cases)", " (holding that (a) is void)", " (per curiam) (en banc)",
                            " (unbalanced (paren", " (Scalia, J., dissenting)", " (  holding that x is y)",
-                           " ( noting the split )", " (holding that x is y  )", " (   )"])
+                           " ( noting the split )", " (holding that x is y  )", " (   )",
+                           " (2000 amendment applies)", " (1972-73 term)", " (1999)", " () see (also)", " ()"])
     return out
 
 
@@ -220,7 +231,32 @@ def reference(rng, st):
     return f"{nm} at {number(rng, True)}"
 
 
+LONG_WORDS = ["the", "court", "of", "appeals", "had", "already", "rejected", "this", "very", "argument", "more", "than",
+              "a", "decade", "ago", "when", "it", "was", "first", "raised", "by", "another", "party", "and", "nothing",
+              "has", "changed", "since", "then", "that", "would", "justify", "different", "result", "here", "today"]
+
+
+def long_filler(rng, st):
+    """>= 300 characters of plain words directly before the next event (the backward scan window is 300 characters)"""
+    out = []
+    n = 0
+    target = rng.choice([296, 300, 303, 310, 340])
+    while n < target:
+        w = rng.choice(LONG_WORDS)
+        out.append(w)
+        n += len(w) + 1
+    tail = rng.choice(["in", "as in", "under", "following"])
+    nm = rng.choice(NAMES)
+    core = f"{number(rng)} {rng.choice(['U. S.', 'S.Ct.', 'F.3d', 'Cal. 4th'])} {page(rng)}"
+    cite = rng.choice([f"{nm}, {core} ({year(rng)})", f"{nm} at {number(rng, True)}, {core}", None, None])
+    if cite is None:
+        cite = rng.choice([supra, short_case])(rng, st)
+    return " ".join(out) + " " + tail + " " + cite
+
+
 def filler(rng, st):
+    if rng.random() < 0.06:
+        return long_filler(rng, st)
     return rng.choice(FILLER)
 
 
